@@ -6,10 +6,11 @@ import Lattigo.Model.MPSwitch
 
     cks_share <qs:v> <n> <c1:M> <sIn:iv> <sOut:iv> <e:iv>                 → M
     cks_agg <qs:v> <l1> <M1> <l2> <M2> <l3> <M3>                          → err | M
-    cks_ks <qs:v> <ctLevel> <c0:M> <c1:M> <aggLevel> <agg:M>              → panic | M|M
+    cks_ks <qs:v> <ctLevel> <c0:M> <c1:M> <aggLevel> <agg:M> <recvLevel>  → panic | <outLevel> M|M
+        (the receiver, allocated at `recvLevel`, is resized to the input's level)
     agg <ms:v> T <k> <sh_1:M> … <sh_k:M>                                  → M   (component-wise)
     pcks_share <qs:v> <p0|-> <n> <lvl> <pk0:M> <pk1:M> <u:iv> <e0:iv> <e1:iv> <c1:M> <s:iv> <e:iv>  → M|M
-    pcks_ks <qs:v> <c0:M> <h0:M> <h1:M>                                   → M|M
+    pcks_ks <qs:v> <ctLevel> <c0:M> <h0:M> <h1:M> <recvLevel>             → <outLevel> M|M
     bgv_e2s <qs:v> <n> <t> <c1:M> <s:iv> <e:iv> <mask:v>                  → M
     bgv_get <qs:v> <n> <t> <nT> <agg:M> <c0:M> <secret:v|->               → v
     bgv_s2e <qs:v> <n> <t> <a:M> <s:iv> <e:iv> <share:v>                  → M
@@ -20,6 +21,8 @@ import Lattigo.Model.MPSwitch
     ckks_get <qs:v> <n> <gap> <cnt> <agg:M> <c0:M>                        → iv
     ckks_s2e <qs:v> <n> <gap> <a:M> <s:iv> <e:iv> <share:iv>              → M
     ckks_scale <defaultScale> <inputScale> <mask:iv>                      → iv
+    ckks_minlevel <lambda> <scale:nat> <nParties> <moduli:v>              → <minLevel> <logBound> <ok>
+        GetMinimumLevelForRefresh in exact integer arithmetic
     ckks_fin <qsIn:v> <qsOut:v> <n> <gap> <cnt> <aggE2S:M> <c0:M> <aggS2E:M> <a:M> <defaultScale> <inputScale>  → iv|M|M
 -/
 namespace Driver.C16
@@ -56,13 +59,14 @@ def handleOpt (toks : List String) : Option String :=
       | .ok r => some (showMat r.v.c)
       | .err => some "err"
       | .panic => some "panic"
-  | ["cks_ks", qs, ctLevel, c0, c1, aggLevel, agg] => do
+  | ["cks_ks", qs, ctLevel, c0, c1, aggLevel, agg, recvLevel] => do
+      let recvLevel ← recvLevel.toNat?
       let qs ← parseVec? qs
       let ctLevel ← ctLevel.toNat?
       let aggLevel ← aggLevel.toNat?
       let aggP : RPoly := poly (qs.take (aggLevel + 1)) (← parseMat? agg)
       match cksKeySwitch ctLevel (poly qs (← parseMat? c0)) (poly qs (← parseMat? c1)) ⟨aggLevel, aggP⟩ with
-      | .ok (a, b) => some (showMat a.c ++ "|" ++ showMat b.c)
+      | .ok (a, b) => some (toString (ksOutLevel ctLevel recvLevel) ++ " " ++ showMat a.c ++ "|" ++ showMat b.c)
       | .err => some "err"
       | .panic => some "panic"
   | "agg" :: ms :: tree :: k :: rest => do
@@ -101,10 +105,10 @@ def handleOpt (toks : List String) : Option String :=
       let low := pcksShare (dropRow z.1 (lvl + 1), dropRow z.2 (lvl + 1)) (poly ql (← parseMat? c1))
         (RPoly.ofInts ql (← parseIVec? s)) (RPoly.ofInts ql (← parseIVec? e))
       some (showMat (low.1.c ++ z.1.c.drop (lvl + 1)) ++ "|" ++ showMat z.2.c)
-  | ["pcks_ks", qs, c0, h0, h1] => do
+  | ["pcks_ks", qs, ctLevel, c0, h0, h1, recvLevel] => do
       let qs ← parseVec? qs
       let r := pcksKeySwitch (poly qs (← parseMat? c0)) (poly qs (← parseMat? h0), poly qs (← parseMat? h1))
-      some (showMat r.1.c ++ "|" ++ showMat r.2.c)
+      some (toString (ksOutLevel (← ctLevel.toNat?) (← recvLevel.toNat?)) ++ " " ++ showMat r.1.c ++ "|" ++ showMat r.2.c)
   | ["bgv_e2s", qs, n, t, c1, s, e, mask] => do
       let qs ← parseVec? qs
       let n ← n.toNat?
@@ -167,6 +171,10 @@ def handleOpt (toks : List String) : Option String :=
       let scaled := rescaleMask (← ds.toInt?) (← is.toInt?) masked
       let ct := refreshFinalize (ofBigints qsOut n gap scaled) (poly qsOut (← parseMat? aggS2E)) (poly qsOut (← parseMat? a))
       some (showIVec masked ++ "|" ++ showMat ct.1.c ++ "|" ++ showMat ct.2.c)
+  | ["ckks_minlevel", lambda, scale, nParties, moduli] => do
+      match minLevelForRefresh (← lambda.toNat?) (← scale.toNat?) (← nParties.toNat?) (← parseVec? moduli) with
+      | some (l, lb) => some (toString l ++ " " ++ toString lb ++ " 1")
+      | none => some "0 0 0"
   | _ => none
 
 def handle (toks : List String) : String := (handleOpt toks).getD badOp
